@@ -11,6 +11,7 @@
   (C01 … C12) are about the functional model.
 -/
 import Stevia.Proofs.GenTreeOps32
+import Stevia.Proofs.GenTreeOpen32
 import Stevia.Proofs.TreeImpTerm
 
 namespace Stevia
